@@ -362,8 +362,10 @@ strictly increasing in `t`.  NOT provable and FALSE in general: (a) across the j
 (`C17_chi2_junction_step_9`: a downward step at t = −2 for n = 9; replayed on the C++ for n = 7, 8, 9 — finding C17-F2),
 (b) outside the window in the extreme tails (`C17_chi2_extreme_tail_turns_4`: known finding C17-F1).
 RESIDUE for "monotone in p": `Normal` itself strictly decreasing (hypothesis `hN` below; over ℝ it is a statement about the
-partial sums / convergents that `NormalDistribution` returns, not proved; in floating point it is FALSE below α ≈ 1e-9, see
-the report). -/
+partial sums / convergents that `NormalDistribution` returns, not proved; in floating point it WAS false below α ≈ 1e-9 —
+finding C17-F3, the sawtooth of `f = 1 - f` — on the code before /repo 708b5036; since that commit `Normal` takes the upper
+tail from `NormalDistribution(-z)`, which the model follows through the regenerated flag `StatanGen.normalUpperDirect`
+(`Statan.normalWith`), see the report). -/
 
 /-- **the probability enters through `Normal(p)` only** (regenerated `Chi_square`, every n ≥ 3) -/
 theorem C17_chi2_through_normal (fuel : ℕ) (p : ℝ) {n : ℤ} (hn : 3 ≤ n) :
